@@ -11,6 +11,7 @@ Part 4: obligations over the table regenerated from /repo (`SophiaModel/Gen/Term
 -/
 import SophiaProofs.Lemmas.TermOrder
 import SophiaProofs.Lemmas.TermImpls
+import SophiaProofs.Lemmas.Utf8Order
 import SophiaModel.Model.TermImpls
 import SophiaModel.Gen.TermKind
 
@@ -495,5 +496,189 @@ theorem views_ns (ns suffix : Str) : Views nsImpl (ns, suffix) (.iri (ns ++ suff
 example (ns suffix : Str) (u : Term) :
     eqI nsImpl termImpl 1 (ns, suffix) u = termEq (.iri (ns ++ suffix)) u :=
   eqI_eq _ _ _ _ _ _ _ (views_ns ns suffix) (views_self u) (by simp [depth])
+
+/-! ## Part 6 — hypotheses discharged or shown necessary
+
+`cmp_swap` and the `termEq → cmp = Equal` half of `cmp_eq_iff` hold for ALL terms (`cmp_swap_all`,
+`cmp_eq_of_eq`); the `WF` guard of `cmp_trans` / of the other half of `cmp_eq_iff` is necessary
+(`cmp_trans_needs_wf`; the witness is replayed on the implementation by corpus/C02/classes.req: the
+implementation answers `cmp=eq eq=0` like the model, and is not asked for more). The fuel of
+`eqI`/`cmpI`/`hashI`/`fromImpl` is irrelevant once it exceeds the nesting depth (`fuel_irrelevant`). -/
+
+theorem strCmp_swap (a b : Str) : strCmp b a = (strCmp a b).swap := by
+  unfold strCmp; exact OrientedOrd.eq_swap
+theorem tagCmp_swap (a b : Str) : tagCmp b a = (tagCmp a b).swap := strCmp_swap _ _
+
+/-- antisymmetry holds for ALL terms: the `WF` guard of `cmp_swap` is discharged -/
+theorem cmp_swap_all (a b : Term) : termCmp b a = (termCmp a b).swap := by
+  induction a generalizing b with
+  | triple s p o ihs ihp iho =>
+    cases b <;> simp [termCmp, kind, Kind.rank, Ordering.swap_then, ihs, ihp, iho, Nat.compare_eq_ite_lt]
+  | iri s => cases b <;> simp [termCmp, kind, Kind.rank, strCmp_swap s, Nat.compare_eq_ite_lt]
+  | bnode s => cases b <;> simp [termCmp, kind, Kind.rank, strCmp_swap s, Nat.compare_eq_ite_lt]
+  | var s => cases b <;> simp [termCmp, kind, Kind.rank, strCmp_swap s, Nat.compare_eq_ite_lt]
+  | lit l d =>
+    cases b <;> simp [termCmp, kind, Kind.rank, Ordering.swap_then, strCmp_swap l, strCmp_swap d, Nat.compare_eq_ite_lt]
+  | lang l t =>
+    cases b <;> simp [termCmp, kind, Kind.rank, Ordering.swap_then, strCmp_swap l, tagCmp_swap t, strCmp_swap rdfLangString, Nat.compare_eq_ite_lt]
+
+/-- equal terms compare Equal, for ALL terms (this direction of `cmp_eq_iff` needs no guard) -/
+theorem cmp_eq_of_eq (a b : Term) (h : termEq a b = true) : termCmp a b = .eq := by
+  induction a generalizing b with
+  | triple s p o ihs ihp iho =>
+    cases b with
+    | triple s2 p2 o2 =>
+      simp only [termEq, Bool.and_eq_true] at h
+      simp [termCmp, ihs s2 h.1.1, ihp p2 h.1.2, iho o2 h.2]
+    | _ => simp [termEq] at h
+  | iri s => cases b <;> simp_all [termEq, termCmp, strCmp_refl]
+  | bnode s => cases b <;> simp_all [termEq, termCmp, strCmp_refl]
+  | var s => cases b <;> simp_all [termEq, termCmp, strCmp_refl]
+  | lit l d => cases b <;> simp_all [termEq, termCmp, strCmp_refl]
+  | lang l t =>
+    cases b with
+    | lang l2 t2 =>
+      simp only [termEq, Bool.and_eq_true, beq_iff_eq] at h
+      simp [termCmp, h.1, (tagCmp_eq_iff t t2).2 h.2, strCmp_refl]
+    | _ => simp [termEq] at h
+
+/-- the `WF` guard of `cmp_trans` (and of `cmp_eq_iff`) is NECESSARY: with an untagged `rdf:langString`
+literal in the middle, `fr ≤ x ≤ en` but not `fr ≤ en` -/
+theorem cmp_trans_needs_wf :
+    ∃ a b c : Term, a.WF = true ∧ b.WF = false ∧ c.WF = true ∧
+      (termCmp a b).isLE = true ∧ (termCmp b c).isLE = true ∧ (termCmp a c).isLE = false ∧
+      termCmp b c = .eq ∧ termEq b c = false :=
+  ⟨.lang "a".toList "fr".toList, .lit "a".toList rdfLangString, .lang "a".toList "en".toList, by decide⟩
+
+/-- any two amounts of fuel above the nesting depth give the same answers -/
+theorem fuel_irrelevant {α β : Type} (I : Impl α) (J : Impl β) (x : α) (y : β) (t u : Term) (n m : Nat)
+    (hx : Views I x t) (hy : Views J y u) (hn : depth t < n) (hm : depth t < m) :
+    eqI I J n x y = eqI I J m x y ∧ cmpI I J n x y = cmpI I J m x y ∧ hashI I n x = hashI I m x :=
+  impl_independent I J I J x y x y t u n m hx hy hx hy hn hm
+
+example : depth (.triple (.bnode []) (.iri []) (.triple (.iri []) (.iri []) (.var []))) < 3 := by decide
+
+/-! ## Part 7 — conversions from ANY implementation, any `Hasher`, prefixes, more implementations -/
+
+theorem fromImpl_views {α : Type} (I : Impl α) (n : Nat) (x : α) (t : Term)
+    (hx : Views I x t) (hn : depth t < n) : fromImpl I n x = t := by
+  induction n generalizing x t with
+  | zero => omega
+  | succ n ih =>
+    cases hx with
+    | atom _ _ hnt hk hi hb hv hl hg hd =>
+      simp only [fromImpl, hk, hi, hb, hv, hl, hg, hd]
+      cases t <;> simp_all [kind, iri?, bnodeId?, variable?, lexicalForm?, languageTag?, datatype]
+    | triple _ xs xp xo s p o hk ht h1 h2 h3 =>
+      simp only [depth] at hn
+      simp only [fromImpl, hk, ht]
+      rw [ih xs s h1 (by omega), ih xp p h2 (by omega), ih xo o h3 (by omega)]
+
+theorem conv_any {α : Type} (I : Impl α) (n : Nat) (x : α) (t : Term) (hx : Views I x t) (hn : depth t < n) :
+    termEq (fromImpl I n x) t = true ∧ termHash (fromImpl I n x) = termHash t ∧ termCmp (fromImpl I n x) t = .eq := by
+  rw [fromImpl_views I n x t hx hn]; exact ⟨termEq_refl t, rfl, cmp_refl t⟩
+
+theorem eq_hash_any_hasher {σ : Type} (write : σ → HashEv → σ) (init : σ) (a b : Term) (h : termEq a b = true) :
+    runHasher write init a = runHasher write init b := by
+  unfold runHasher; rw [eq_hash a b h]
+
+theorem strCmp_prefix_lt (a r : Str) (c : Char) : strCmp a (a ++ c :: r) = .lt := by
+  induction a with
+  | nil => simp [strCmp]
+  | cons x xs ih =>
+    simp only [strCmp, List.map_cons, List.cons_append, List.compare_cons_cons, List.map_append] at *
+    simp [ih]
+
+theorem tagCmp_prefix_lt (a r : Str) (c : Char) : tagCmp a (a ++ c :: r) = .lt := by
+  simp only [tagCmp, foldTag, List.map_append, List.map_cons]
+  exact strCmp_prefix_lt _ _ _
+
+theorem lang_prefix_lt (l a r : Str) (c : Char) :
+    termCmp (.lang l a) (.lang l (a ++ c :: r)) = .lt ∧ termEq (.lang l a) (.lang l (a ++ c :: r)) = false := by
+  constructor
+  · simp [termCmp, tagCmp_prefix_lt]
+  · have h := tagCmp_prefix_lt a r c
+    have : tagEq a (a ++ c :: r) = false := by
+      cases hh : tagEq a (a ++ c :: r)
+      · rfl
+      · rw [(tagCmp_eq_iff _ _).2 hh] at h; cases h
+    simp [termEq, this]
+
+-- non-vacuity: converting an `NsTerm` (namespace + suffix) gives the concatenated IRI
+example (ns suffix : Str) : fromImpl nsImpl 1 (ns, suffix) = .iri (ns ++ suffix) :=
+  fromImpl_views _ _ _ _ (views_ns ns suffix) (by simp [depth])
+
+theorem views_rio (l : RioLit) : Views rioLitImpl l l.term := by
+  cases l <;> exact Views.atom _ _ (by simp [RioLit.term, kind]) rfl rfl rfl rfl rfl rfl rfl
+
+/-- Rio's two spellings of a plain string are the same term for every implementation on the other side -/
+example (v : Str) : eqI rioLitImpl rioLitImpl 1 (.simple v) (.typed v xsdString) = true := by
+  rw [eqI_eq _ _ _ _ _ _ _ (views_rio _) (views_rio _) (by simp [RioLit.term, depth])]
+  simp [RioLit.term, termEq]
+
+/-- a forwarding wrapper exposes exactly the term the wrapped value exposes -/
+theorem views_wrapped {α β : Type} (I : Impl α) (unwrap : β → α) (wrap : α → β)
+    (h : ∀ a, unwrap (wrap a) = a) (x : α) (t : Term) (hx : Views I x t) :
+    ∀ y, unwrap y = x → Views (I.wrapped unwrap wrap) y t := by
+  induction hx with
+  | atom x t hnt hk hi hb hv hl hg hd =>
+    intro y hy
+    subst hy
+    exact Views.atom _ _ hnt hk hi hb hv hl hg hd
+  | triple x xs xp xo s p o hk ht _ _ _ ihs ihp iho =>
+    intro y hy
+    subst hy
+    exact Views.triple _ (wrap xs) (wrap xp) (wrap xo) s p o hk (by simp [Impl.wrapped, ht])
+      (ihs _ (h xs)) (ihp _ (h xp)) (iho _ (h xo))
+
+/-! ## Part 8 — `str::cmp` is `strCmp`: UTF-8 byte order = code point order (was an assumption) -/
+
+/-- Rust compares `str`s bytewise; the model compares code points; they are the same comparison -/
+theorem str_cmp_is_bytewise (a b : Str) : compare (Utf8.utf8Bytes a) (Utf8.utf8Bytes b) = strCmp a b :=
+  Utf8.utf8_order a b
+
+/-- e.g. for IRIs (same for blank node labels, variable names, lexical forms, datatypes) -/
+theorem cmp_iri_bytewise (a b : Str) :
+    termCmp (.iri a) (.iri b) = compare (Utf8.utf8Bytes a) (Utf8.utf8Bytes b) := by
+  rw [str_cmp_is_bytewise]; rfl
+
+-- the encoder is the real one: 1-, 2-, 3- and 4-byte sequences at the length boundaries
+example : Utf8.utf8Bytes [Char.ofNat 0x7f, Char.ofNat 0x80, Char.ofNat 0x7ff, Char.ofNat 0x800, Char.ofNat 0xffff, Char.ofNat 0x10000] =
+    [0x7f, 0xc2, 0x80, 0xdf, 0xbf, 0xe0, 0xa0, 0x80, 0xef, 0xbf, 0xbf, 0xf0, 0x90, 0x80, 0x80] := by decide
+
+/-! ## Part 9 — the laws on values held by different implementations -/
+
+theorem views_native (b : Bool) (s : Str) :
+    Views boolImpl b (.lit (if b then "true".toList else "false".toList) xsdBoolean) ∧
+    Views strImpl s (.lit s xsdString) :=
+  ⟨Views.atom _ _ (by simp [kind]) rfl rfl rfl rfl rfl rfl rfl,
+   Views.atom _ _ (by simp [kind]) rfl rfl rfl rfl rfl rfl rfl⟩
+
+/-- the laws, stated on values held by DIFFERENT implementations (three arbitrary ones): symmetry of `eq`,
+antisymmetry of `cmp`, `eq ⇒ same hash`, `cmp = Equal ⇔ eq`, transitivity of `eq` and of `cmp` -/
+theorem laws_across_impls {α β γ : Type} (I : Impl α) (J : Impl β) (K : Impl γ)
+    (x : α) (y : β) (z : γ) (t u v : Term) (n : Nat)
+    (hx : Views I x t) (hy : Views J y u) (hz : Views K z v)
+    (ht : depth t < n) (hu : depth u < n) :
+    eqI J I n y x = eqI I J n x y ∧
+    cmpI J I n y x = (cmpI I J n x y).swap ∧
+    (eqI I J n x y = true → hashI I n x = hashI J n y) ∧
+    (eqI I J n x y = true → eqI J K n y z = true → eqI I K n x z = true) ∧
+    (t.WF = true → u.WF = true → (cmpI I J n x y = .eq ↔ eqI I J n x y = true)) ∧
+    (t.WF = true → u.WF = true → v.WF = true →
+      (cmpI I J n x y).isLE = true → (cmpI J K n y z).isLE = true → (cmpI I K n x z).isLE = true) := by
+  rw [eqI_eq J I n y x u t hy hx hu, eqI_eq I J n x y t u hx hy ht, cmpI_eq J I n y x u t hy hx hu,
+    cmpI_eq I J n x y t u hx hy ht, hashI_eq I n x t hx ht, hashI_eq J n y u hy hu,
+    eqI_eq J K n y z u v hy hz hu, eqI_eq I K n x z t v hx hz ht,
+    cmpI_eq J K n y z u v hy hz hu, cmpI_eq I K n x z t v hx hz ht]
+  exact ⟨(termEq_symm t u).symm, cmp_swap_all t u, eq_hash t u, termEq_trans t u v,
+    fun h1 h2 => cmp_eq_iff t u h1 h2, fun h1 h2 h3 => cmp_trans t u v h1 h2 h3⟩
+
+-- non-vacuity: a `bool`, a Rio literal and a `str`, pairwise different implementations of literals
+example : eqI boolImpl rioLitImpl 1 true (.typed "true".toList xsdBoolean) = true ∧
+    eqI rioLitImpl strImpl 1 (.simple "x".toList) "x".toList = true := by
+  rw [eqI_eq _ _ _ _ _ _ _ (views_native true []).1 (views_rio _) (by simp [depth]),
+    eqI_eq _ _ _ _ _ _ _ (views_rio _) (views_native true "x".toList).2 (by simp [RioLit.term, depth])]
+  decide
 
 end SophiaProofs.C02
